@@ -41,14 +41,14 @@ CLAIMS = {
     ),
     "C14": dict(
         category="other",
-        technique="static analysis: who-appends rule over the configuration registries with membership-test scope (which containers the duplicate test scans), per-record key-comparison rule on the parser's list appends (incl. comparison helpers), exhaustive evaluation of range guards over all byte values, exact-string-comparison lint, container agreement and count/fill agreement of the enumeration getters",
+        technique="static analysis: who-appends rule over the configuration registries with membership-test scope (which containers the duplicate test scans), per-record key-comparison rule on the parser's list appends (incl. comparison helpers), exhaustive evaluation of range guards over all byte values, exact-string-comparison lint, explicit-base rule on the strtol-family calls of the parsers, container agreement and count/fill agreement of the enumeration getters",
         text=("Decides the structural part of the rejection clauses and of the getters, not the biconditional: every append to a global registry (boards, trains, points, signals, "
               "peripherals, segments, reversers) lies behind negative membership tests on the keys the statement names, and the test on a DCC address looks through trains and both "
               "kinds of DCC accessories, the test on a point/signal id through both kinds of points/signals; every per-board / per-train list append is accompanied by a comparison "
               "of each named key (number, port, address, CV, aspect id/value, function id/bit) with the existing entries whose match raises the error result; the guards on function "
               "bits and speed steps accept exactly 0..31 and {14, 28, 126}; ids are matched with exact string comparison only; in the enumeration getters the containers whose "
               "length sizes the result are the containers walked, and two-pass getters count and fill under the same nesting and tests. Not decided: that every well-formed "
-              "configuration is accepted, how scalars are converted from text (number formats), calibration length, cross-file board consistency beyond the lookup, and equality "
+              "configuration is accepted, the digit arithmetic of the text-to-number conversion beyond its base (every strtol-family call of the parsers names base 10 or 16, so a leading zero is never read as octal), calibration length, cross-file board consistency beyond the lookup, and equality "
               "of getter output with the declared values."),
         note=TRUST + "The key lists per record type and the documented ranges are transcribed from the property statement (vf/props/c14.py LOCAL_KEYS / REG_KEYS / RANGES).",
         design="DESIGN.md section 4, C14",
